@@ -3,7 +3,7 @@
 //@ props: C10
 //@ expect: postcondition>=1 canary=2
 #include "_unit.h"
-/* lists of 1..2^20 elements, any index below the length */
+/* lists of 1..2^16 elements, any index below the length */
 void harness(void)
 {
     xv_ghost_havoc(); xc_ghost_havoc();
